@@ -105,10 +105,15 @@ func c19History(k *fw.K) {
 	}
 	k.Case = map[string]any{"label_class": cname, "batches": batches}
 	acc := metrics.NewAccuracy()
+	if k.Index%3 == 2 {
+		acc = new(metrics.Accuracy) // the zero value of the exported type
+	}
 	matched, total, invalid := 0, 0, 0
 	last, lastSet, rejectedJustNow := 0., false, false
 	zeroAfterMatch, sawMatch := false, false
 	var played []batch // every accepted batch in the order it was fed
+	var other *metrics.Accuracy
+	omatched, ototal := 0, 0
 	result := func(tag string) bool {
 		var v float64
 		var err error
@@ -234,6 +239,38 @@ func c19History(k *fw.K) {
 		}
 		if !account(b, "after batch "+itoa(bi)) {
 			return
+		}
+		// a second metric object (a "validation" accuracy next to the "training" one) is alive and fed in between
+		if !long && r.Intn(3) == 0 {
+			if other == nil {
+				other = metrics.NewAccuracy()
+			}
+			n := 1 + r.Intn(4)
+			op, ot := make([]float64, n), make([]float64, n)
+			for i := range op {
+				op[i], ot[i] = float64(r.Intn(2)), float64(r.Intn(2))
+				if op[i] == ot[i] {
+					omatched++
+				}
+			}
+			ototal += n
+			var ov float64
+			if pn := call(func() {
+				if err = other.Accumulate(rt.MustLeaf(ref.New([]int{n}, op), false), rt.MustLeaf(ref.New([]int{n}, ot), false)); err == nil {
+					ov, err = other.Result()
+				}
+			}); pn != nil || err != nil {
+				k.Failf("second Accuracy object: panic=%v err=%v", pn, err)
+				return
+			}
+			k.Count("batches_fed_to_a_second_metric_object", 1)
+			if ov != float64(omatched)/float64(ototal) {
+				k.Failf("second Accuracy object fed alternately with the first: Result = %v, expected %d/%d", ov, omatched, ototal)
+				return
+			}
+			if !result("after feeding the OTHER metric object (batch " + itoa(bi) + ")") {
+				return
+			}
 		}
 		// the next accepted call shares exactly ONE tensor object with this one: the same target object scored against a
 		// different prediction tensor, or the same prediction object against a different target tensor
